@@ -2,6 +2,7 @@ SPECIFICATION Spec
 CONSTANTS
   B = {"b1"}
   P = {"fn", "fn2"}
+  K = {"func", "method"}
   MaxOps = 4
 PROPERTY SnapsBack
 CONSTRAINT Emit
